@@ -161,6 +161,35 @@ def extra_events(ctx):
     return ev
 
 
+def attach_events(ctx):
+    """a key made on its own and then attached to a primary key with add_subkey(): the subkey packet in the key's export has the public
+    fields the stand-alone key had (creation time included), so its fingerprint and key id are the ones it had before - whatever the
+    creation time of the primary."""
+    pgpy = import_pgpy()
+    from pgpy.constants import KeyFlags
+    ev = []
+    for palg, pt_, subs in (('ed25519', 1546300800, [('cv25519', 1609459200), ('p256', 2208988800)]), ('rsa2048', 1262304000, [('ed25519', 1262304000), ('ecdh256', 86399)]),
+                            ('p256', 2 ** 31, [('rsa2048', 0), ('cv25519', 2 ** 32 - 1)])):
+        try:
+            k = K.new_key(palg, created=pt_, name='Attach %s' % palg)
+            for salg, st_ in subs:
+                sk = K.raw_key(salg, st_)
+                before_blob = bytes(sk)
+                before_fpr = str(sk.fingerprint)
+                flags = {KeyFlags.EncryptCommunications} if salg in ('cv25519', 'ecdh256') else {KeyFlags.Sign}
+                k.add_subkey(sk, usage=flags, created=K.ts(max(st_, pt_)))
+                idx = len(k.subkeys)
+                for form, blob in (('private', bytes(k)), ('public', bytes(k.pubkey)), ('re-imported', bytes(pgpy.PGPKey.from_blob(bytes(k))[0]))):
+                    k2 = pgpy.PGPKey.from_blob(blob)[0]
+                    after_fpr = str(list(k2.subkeys.values())[idx - 1].fingerprint)
+                    ev.append({'k': 'attach', 'label': '%s subkey (created %d) attached to a %s primary (created %d), %s export' % (salg, st_, palg, pt_, form),
+                               'before': octets(before_blob), 'after': octets(blob), 'index': idx + 1, 'fpr_before': before_fpr, 'fpr_after': after_fpr,
+                               'fpr_object': str(sk.fingerprint)})
+        except Exception as ex:
+            ctx.note('attach history %s: %s' % (palg, repr(ex)[:100]))
+    return ev
+
+
 def run(ctx):
     import_pgpy()
     ctx.assumptions += ['TLC/SANY', 'JSON marshalling', 'hashlib SHA-1 over a preimage that TLC has confirmed',
@@ -172,7 +201,7 @@ def run(ctx):
         t = traces[tid]
         b = t['behaviour'][:step]
         ctx.violation(clause, 'alg=%s after=%s' % (t['meta']['alg'], b[-1][0]), {'behaviour': b, 'fingerprints': t['events'][step - 1]['obs']['fingerprints'], 'expected': t['meta']['fingerprints']})
-    ev = extra_events(ctx)
+    ev = extra_events(ctx) + attach_events(ctx)
     for e in ev:
         ctx.case((e['k'], e['label']))
     ctx.sample({k: v for k, v in ev[0].items() if k not in ('blob', 'preimages')})
@@ -182,7 +211,7 @@ def run(ctx):
     ctx.extra['fingerprint_events'] = len(ev)
     for idx, clause in rej2:
         e = ev[idx]
-        ctx.violation(clause, ' '.join(e['label'].split(' ')[:2]) if e['k'] == 'fpr' else e['label'], {'event': {k: v for k, v in e.items() if k not in ('blob', 'preimages', 'body')}})
+        ctx.violation(clause, ' '.join(e['label'].split(' ')[:2]) if e['k'] == 'fpr' else (e['label'].split(',')[0] if e['k'] == 'attach' else e['label']), {'event': {k: v for k, v in e.items() if k not in ('blob', 'preimages', 'body', 'before', 'after')}})
     return ctx.finish(level='model_checking',
                       rule='life-cycle behaviours of C06 (fingerprints after every step, re-imports, derived public keys) plus keys of every algorithm / curve x '
                            'creation times {0, 1, 86399, 2^31-1, 2^31, 2^32-1, DST instants} x 4 process time zones x private / public export, aware non-UTC '
